@@ -265,7 +265,8 @@ NAMES_BEFORE = ["A", "0", "_x", "Zeta", "", " ", "!bang", "action", "action_stat
 NAMES_BETWEEN = ["action_typf", "b", "message", "message_typ", "message_type2", "n", "task", "task_levek",
                  "task_uuid_", "timestam", "timestamp2", "exception", "reason"]
 NAMES_AFTER = ["zz", "~", "x", "\u00e9", "\u043a\u043b\u044e\u0447", "\u540d\u524d", "\U0001F600", "\uffff", "timestamp\u00e9"]
-NAMES_WEIRD = ["a b", "k=v", "a: b", "tab\there", "quote'\"", "\\n", "|", "  | ", "a=1 b", "\u2028"]
+NAMES_WEIRD = ["a b", "k=v", "a: b", "tab\there", "quote'\"", "\\n", "|", "  | ", "a=1 b", "\u2028",
+               "cpu%", "%s", "%(name)s", "100%%", "%d done", "{0}", "{}", "{name}"]
 NAMES_NL = ["with\nnewline", "\n"]
 
 STRINGS = ["", "x", "hello", "line1\nline2", "a\n\nb\n", "tab\tsep", "\ttabs\t\t", "C:\\new\\table", "back\\slash\\",
